@@ -23,7 +23,7 @@ from rcc import harness as h
 odml = h.odml
 BaseSection, BaseProperty, BaseDocument = h.BaseSection, h.BaseProperty, h.BaseDocument
 
-WORK = os.path.join(h.WORK, 'c11')
+WORK = os.path.join(h.WORK, 'c11-%d' % os.getpid())     # per process: concurrent runs do not share files
 
 
 class Col(h.Collector):
